@@ -109,8 +109,11 @@ func (r *tr) kop(mode string) *kop {
 	}
 	op.kind = r.next()
 	switch op.kind {
-	case "open":
+	case "open", "openbf":
 		op.h, op.ro, op.when, op.seed = r.i(), r.b(), r.z(), r.z()
+		if op.kind == "openbf" {
+			op.bf = r.i()
+		}
 		n := r.i()
 		if n >= 0 {
 			op.only = []string{}
